@@ -20,6 +20,7 @@ import (
 	pythoncommon "github.com/microsoft/yardl/tooling/internal/python/common"
 	"github.com/microsoft/yardl/tooling/pkg/dsl"
 	"github.com/microsoft/yardl/tooling/pkg/packaging"
+	"github.com/rs/zerolog"
 )
 
 var prims = []dsl.PrimitiveDefinition{dsl.Bool, dsl.Int8, dsl.Int16, dsl.Int32, dsl.Int64, dsl.Uint8, dsl.Uint16, dsl.Uint32,
@@ -76,6 +77,39 @@ func tables() {
 		}
 	}
 	res["commonType"] = common
+	// verdict of ValidateEvolution for a one-step protocol whose step changes from primitive b (old) to a (new)
+	change := map[string]map[string]int{}
+	mk := func(p dsl.PrimitiveDefinition) *dsl.Environment {
+		step := &dsl.ProtocolStep{Name: "s", Type: &dsl.SimpleType{Name: string(p)}}
+		proto := &dsl.ProtocolDefinition{DefinitionMeta: &dsl.DefinitionMeta{Name: "P", Namespace: "N"}, Sequence: dsl.ProtocolSteps{step}}
+		ns := &dsl.Namespace{Name: "N", IsTopLevel: true, Protocols: []*dsl.ProtocolDefinition{proto}}
+		env, err := dsl.Validate([]*dsl.Namespace{ns})
+		if err != nil {
+			panic(err)
+		}
+		return env
+	}
+	for _, a := range prims {
+		change[string(a)] = map[string]int{}
+		for _, b := range prims {
+			v := -1
+			p := recovered(func() {
+				_, warnings, err := dsl.ValidateEvolution(mk(a), []*dsl.Environment{mk(b)}, []string{"v0"})
+				if err != nil {
+					v = 2
+				} else if len(warnings) > 0 {
+					v = 1
+				} else {
+					v = 0
+				}
+			})
+			if p != "" {
+				v = 3
+			}
+			change[string(a)][string(b)] = v
+		}
+	}
+	res["primChange"] = change
 	info := map[string]any{}
 	for _, a := range prims {
 		info[string(a)] = map[string]any{
@@ -234,6 +268,7 @@ func idents() {
 }
 
 func main() {
+	zerolog.SetGlobalLevel(zerolog.WarnLevel)
 	if len(os.Args) < 2 {
 		os.Exit(2)
 	}
